@@ -234,7 +234,9 @@ var Sources = func() []string {
 // again as that exception and Run returns it as an error.  Outside such blocks the raw panic reaches catchPanic,
 // which re-panics.  The model does not distinguish the two forms (both are the observation thr = "v", v = "boom"),
 // so for these programs the driver accepts both; for all others the panic must leave Run as a panic.
-var PanicInHandler = map[int]bool{13: true}
+// (Programs 5 and 11 have such calls too; their handlers run when the try block throws, which under a small stack
+// depth limit it can do before the host function's k-th call - seen in the thorough tier's random behaviours.)
+var PanicInHandler = map[int]bool{5: true, 11: true, 13: true}
 
 // SpinSources holds the source text of the spin pool (index p-1).
 var SpinSources = func() []string {
@@ -602,9 +604,11 @@ func QuickBounds() []Bounds {
 func ThoroughBounds() []Bounds {
 	return []Bounds{
 		{Name: "thorough-exhaustive", MaxRT: 3, MaxLen: 4, RouteFrom: 2, PanicFrom: 2, GoFrom: 2, MaxK: 3, IntFrom: 2, Limits: []int{0, 4}},
+		// (limits below 4 are left to C18's idle-runtime family: vm.Get / Set / Call enter the runtime WITHOUT the global
+		// context that the equivalent one-statement program has, so right at a small limit they are one level apart)
 		// random behaviours of length 8 with every action enabled at every step; TLC prints ALL successors
 		// of every state a behaviour visits, so each behaviour contributes about 8 x 150 transitions
-		{Name: "thorough-simulation", MaxRT: 3, MaxLen: 8, RouteFrom: 0, PanicFrom: 0, GoFrom: 0, MaxK: 3, IntFrom: 0, Limits: []int{0, 2, 3, 4, 5}, Simulate: true, Num: 8, Depth: 8},
+		{Name: "thorough-simulation", MaxRT: 3, MaxLen: 8, RouteFrom: 0, PanicFrom: 0, GoFrom: 0, MaxK: 3, IntFrom: 0, Limits: []int{0, 4}, Simulate: true, Num: 8, Depth: 8},
 	}
 }
 
